@@ -182,4 +182,13 @@ func c05(ctx *Ctx) {
 	if classes[0] == 0 || classes[1] == 0 || classes[2] == 0 {
 		ctx.Stats.NonTrivial = 0
 	}
+	// end to end with the default policy in force: UDP associations that mix public targets
+	// (reachable through addresses on the loopback interface) with private, CGNAT, link-local,
+	// ULA, mapped and domain-literal ones; every non-public address has a sink listening
+	ctx.Stats.Rule += "; plus UDP and TCP end-to-end scenarios with the default policy in force against local sinks on public-range and private-range addresses"
+	n := 45
+	if ctx.Thorough() {
+		n = 600
+	}
+	cUDPInto(ctx, "C05", n, shard+1)
 }
